@@ -144,6 +144,7 @@ class SearchModel:
     object_param: str | None = None
     subst: object = None  # substitution used for the guards (boolean locals, boolean helpers, canonical hierarchy atom)
     node_maps: dict[str, NodeMap] = field(default_factory=dict)
+    worklist_filters: list = field(default_factory=list)  # [(condition, variable)] of a filtered copy the worklist starts from
     subtree_maps: dict[str, str] = field(default_factory=dict)  # T -> collection parameter, for `T = {o: get_all_submodules_of(graph, o) for o in P}`
 
     def hier(self, nvar: str | None = None) -> Formula:
@@ -2054,6 +2055,97 @@ def _superset_copies(fn: ast.AST, params: set[str]) -> dict[str, tuple[ast.AST, 
     return out
 
 
+def _remaining_sets_to_visited(fn: ast.AST, params: set[str]) -> None:
+    """`U = A - B` (set algebra / a copy, bound once at top level) that afterwards only *shrinks* by single nodes (`U.remove(x)`,
+    `U.discard(x)`) is the set of nodes still to be handled: U = (A - B) minus what was taken out.  Rewritten with an explicit
+    set of handled nodes, so that the usual visited-set reading applies:
+
+        U = A - B                       U = A - B; U__done = set()
+        if n not in U: continue    ->   if n not in (A - B) or n in U__done: continue
+        U.remove(n)                     U__done.add(n)"""
+    set_parents(fn)
+    mut = _mutation_positions(fn)
+    pos = mut["@pos"]
+    stores: dict[str, int] = {}
+    vals: dict[str, ast.expr] = {}
+    for n in ast.walk(fn):
+        if isinstance(n, ast.Name) and isinstance(n.ctx, (ast.Store, ast.Del)):
+            stores[n.id] = stores.get(n.id, 0) + 1
+        if isinstance(n, ast.Assign) and len(n.targets) == 1 and isinstance(n.targets[0], ast.Name):
+            vals[n.targets[0].id] = n.value
+        elif isinstance(n, ast.AnnAssign) and isinstance(n.target, ast.Name) and n.value is not None:
+            vals[n.target.id] = n.value
+    taken = {n.id for n in ast.walk(fn) if isinstance(n, ast.Name)}
+    for u, val in vals.items():
+        if u in params or stores.get(u) != 1:
+            continue
+        x = strip(val)
+        if isinstance(x, ast.Name):
+            if x is val or x.id == u:
+                continue
+        elif not (isinstance(x, (ast.BinOp, ast.Call)) and _set_algebra(x)):
+            continue
+        st = stmt_of(val)
+        if st is None or parent(st) is not fn:
+            continue
+        here = pos.get(id(val), -1)
+        operands = {n.id for n in ast.walk(x) if isinstance(n, ast.Name)}
+        if u in operands or any(p_ > here for o_ in operands for p_ in mut.get(o_, [])):
+            continue
+        shrinks: list[ast.Call] = []
+        ok = True
+        for n in ast.walk(fn):
+            if isinstance(n, ast.Call) and isinstance(n.func, ast.Attribute) and isinstance(n.func.value, ast.Name) and n.func.value.id == u:
+                if n.func.attr in ("remove", "discard") and len(n.args) == 1 and not n.keywords and isinstance(parent(n), ast.Expr):
+                    shrinks.append(n)
+                elif n.func.attr in (_GROW | _SHRINK):
+                    ok = False
+            elif isinstance(n, ast.AugAssign) and isinstance(n.target, ast.Name) and n.target.id == u:
+                ok = False
+        if not ok or not shrinks:
+            continue
+        # every other use of U is a membership test after its binding
+        tests: list[ast.Compare] = []
+        for n in ast.walk(fn):
+            if isinstance(n, ast.Name) and n.id == u and isinstance(n.ctx, ast.Load):
+                par = parent(n)
+                if isinstance(par, ast.Attribute) and isinstance(parent(par), ast.Call) and any(parent(par) is c for c in shrinks):
+                    continue
+                if isinstance(par, ast.Compare) and len(par.ops) == 1 and isinstance(par.ops[0], (ast.In, ast.NotIn)) and par.comparators[0] is n and pos.get(id(par), -1) > here:
+                    tests.append(par)
+                    continue
+                ok = False
+        if not ok or not tests:
+            continue
+        done = f"{u}__done"
+        while done in taken:
+            done += "_"
+        taken.add(done)
+        for c in shrinks:
+            c.func.value = ast.copy_location(ast.Name(id=done, ctx=ast.Load()), c.func.value)
+            c.func.attr = "add"
+        for t in tests:
+            is_in = isinstance(t.ops[0], ast.In)
+            base = ast.copy_location(ast.Compare(left=_clone(t.left), ops=[ast.In() if is_in else ast.NotIn()], comparators=[ast.copy_location(_clone(x), t)]), t)
+            handled = ast.copy_location(ast.Compare(left=_clone(t.left), ops=[ast.NotIn() if is_in else ast.In()], comparators=[ast.copy_location(ast.Name(id=done, ctx=ast.Load()), t)]), t)
+            new = ast.copy_location(ast.BoolOp(op=ast.And() if is_in else ast.Or(), values=[base, handled]), t)
+            for n_ in (base, handled, new):
+                if hasattr(t, "_src"):
+                    n_._src = t._src  # type: ignore[attr-defined]
+            par = parent(t)
+            for fld, v_ in ast.iter_fields(par):
+                if v_ is t:
+                    setattr(par, fld, new)
+                elif isinstance(v_, list):
+                    for i, y in enumerate(v_):
+                        if y is t:
+                            v_[i] = new
+        init = ast.copy_location(ast.Assign(targets=[ast.Name(id=done, ctx=ast.Store())], value=ast.Call(func=ast.Name(id="set", ctx=ast.Load()), args=[], keywords=[])), st)
+        fn.body.insert(next(i for i, b in enumerate(fn.body) if b is st) + 1, init)
+        ast.fix_missing_locations(fn)
+        set_parents(fn)
+
+
 def _expand_superset_tests(fn: ast.AST, params: set[str]) -> None:
     """With V >= X (see _superset_copies) `e in V` is `e in V or e in X` and `e not in V` is `e not in V and e not in X`: written out,
     so that what a test of the merged set (`closed = set(excluded)`, then every expanded node is added) says about the set it was
@@ -2120,6 +2212,7 @@ def search_view(repo: Repo, fi: FuncInfo) -> FuncInfo:
     node.body = _thread_none_exits(node.body)
     _eliminate_aliases(node, set(fi.param_names))
     _propagate_copies(node, set(fi.param_names))
+    _remaining_sets_to_visited(node, set(fi.param_names))
     _expand_superset_tests(node, set(fi.param_names))
     node.body = _split_conditions(node.body)
     ast.fix_missing_locations(node)
@@ -2623,8 +2716,11 @@ def _node_expr_text(e: ast.AST, single: dict[str, ast.expr]) -> str:
     return norm(e)
 
 
-def _worklist_sources(fn: ast.AST, worklist_expr: ast.AST, outer: ast.AST, single: dict[str, ast.expr]) -> tuple[list[str], list[ast.stmt]]:
-    """Names of the sets / node expressions a worklist is initialised from, and the initialising statements."""
+def _worklist_sources(fn: ast.AST, worklist_expr: ast.AST, outer: ast.AST, single: dict[str, ast.expr], filters: list | None = None) -> tuple[list[str], list[ast.stmt]]:
+    """Names of the sets / node expressions a worklist is initialised from, and the initialising statements; the conditions of a
+    filtered copy (`[n for n in S if c]`) are appended to `filters` as (condition, variable)."""
+    if filters is None:
+        filters = []
 
     def sources_of(e: ast.AST, depth: int = 0) -> list[str]:
         e = strip(e)
@@ -2637,6 +2733,10 @@ def _worklist_sources(fn: ast.AST, worklist_expr: ast.AST, outer: ast.AST, singl
             return sources_of(e.args[0])
         if isinstance(e, ast.Name) and e.id in single and isinstance(strip(single[e.id]), (ast.List, ast.Tuple, ast.Set)) and depth < 3:
             return sources_of(single[e.id], depth + 1)  # `start_nodes = [node]` .. `W = list(start_nodes)`
+        if isinstance(e, _COMPS) and len(e.generators) == 1 and isinstance(e.elt, ast.Name) and isinstance(e.generators[0].target, ast.Name) and e.elt.id == e.generators[0].target.id and depth < 3:
+            # a filtered copy `[n for n in S if c]`: starts from (part of) S; which part is recorded for the rules
+            filters.extend((c, e.generators[0].target.id) for c in e.generators[0].ifs)
+            return sources_of(e.generators[0].iter, depth + 1)
         return [norm(e)]
 
     base = strip(worklist_expr)
@@ -3075,7 +3175,8 @@ def build(repo: Repo, fi: FuncInfo) -> SearchModel | None:
     model.other_expansions = [e for e, bb in bound if bb is None]
     model.neighbour_calls = ncalls
     model.subst = make_subst(repo, v)
-    model.worklist_sources, model.worklist_inits = _worklist_sources(fn, wl_expr, outer, single)
+    model.worklist_filters = []
+    model.worklist_sources, model.worklist_inits = _worklist_sources(fn, wl_expr, outer, single, model.worklist_filters)
 
     # ---- hierarchy tests
     model.hier_calls = [c for c in ast.walk(fn) if isinstance(c, ast.Call) and isinstance(c.func, ast.Attribute) and c.func.attr == HIER and (in_outer(c) or niter_of(c) is not None)]
